@@ -13,4 +13,13 @@ TEXT = {
         technique='Lean 4 soundness+completeness proof of the matcher against an inductive spec; exhaustive differential correspondence'),
 }
 
+TEXT['C05'] = dict(
+    text='Lean theorems over the model of message.rs: replace_all_bytes satisfies, and is determined by, the declarative leftmost/non-overlapping/single-pass relation Repl for every haystack, literal and replacement; no occurrence ⇒ byte-identical output (so the blob id is unchanged); rules are folded in file order, later rules see earlier output; what each rule-file line means (comments, blanks, bare literal, first ==> splits, regex:/glob: lines are not literals); $-template expansion. Correspondence: exhaustive small haystack×needle×replacement, random triples incl. NUL/LF/0xff, generated rule files through the three real parsers, exhaustive templates. Regex matching is a parameter.',
+    note=TIE + ' The regex crate (matching, replace_all) is not modelled. The blob branch of the stream loop (framing, literal-then-regex order) is covered by the stream-level correspondence when that model is imported.',
+    technique='Lean 4 refinement of the byte loop to an inductive replacement relation (spec + uniqueness); differential fn-level correspondence')
+TEXT['C04'] = dict(
+    text='Lean theorems over the model of the identity-line rewriters: no option ⇒ identical bytes; every rewritten date line keeps keyword, identity and timezone and carries newTimestamp(ts) which is never negative, equals ts+shift when that is a non-negative i64, and is the set value when --date-set is given; author/committer rules cannot touch the keyword or anything after the closing > ; e-mail rules see only the e-mail; mailmap is keyed by the old e-mail, first rule wins, other lines untouched; message literals use the C05 engine. Correspondence on generated identity lines (non-ASCII, invalid UTF-8, odd whitespace, extreme numbers) × rule files through the real parsers.',
+    note=TIE + ' aho-corasick standard semantics and the mailmap line regex are hand-modelled and validated by the correspondence only. Header preservation/message framing in the stream loop are covered by the stream-level correspondence.',
+    technique='Lean 4 theorems over a byte-level model (UTF-8 validity, Unicode whitespace, i64 saturation); differential fn-level correspondence')
+
 NOT_YET = {}
